@@ -127,10 +127,13 @@ func (cp *Processor) verifySessionV2(tok sessionv2.Token, v signatureVerificatio
 		return fmt.Errorf("authenticate session token: %w", err)
 	}
 
-	if v.idContainerSet {
-		if !tok.AssertContainer(v.verbV2, v.idContainer) {
-			return errWrongCID
+	// v.idContainer is zero for container creation: only wildcard contexts
+	// carrying the verb match then.
+	if !tok.AssertContainer(v.verbV2, v.idContainer) {
+		if !v.idContainerSet {
+			return errWrongSessionVerb
 		}
+		return errWrongCID
 	}
 
 	if tok.OriginalIssuer() != v.ownerContainer {
